@@ -21,6 +21,13 @@ type gcase struct {
 	Files []string `json:"files"`
 	Pad   string   `json:"pad"`
 	Var   string   `json:"var"`
+	// HTTP-source cases (kind = "http"): behaviour of a scripted server, see spec/MetainfoGen.tla HttpCases
+	Kind   string `json:"kind,omitempty"`
+	Hdr    string `json:"hdr,omitempty"`
+	Status string `json:"status,omitempty"`
+	CL     string `json:"cl,omitempty"`
+	Body   string `json:"body,omitempty"`
+	Pace   string `json:"pace,omitempty"`
 }
 
 type pair struct {
@@ -130,6 +137,8 @@ func lenTok(tok string, pl *big.Int) *big.Int {
 		return add(pl, -1)
 	case "pl":
 		return add(pl, 0)
+	case "2pl", "3pl", "4pl", "5pl":
+		return new(big.Int).Mul(pl, big.NewInt(int64(tok[0]-'0')))
 	case "pl+1":
 		return add(pl, 1)
 	case "pl+2":
